@@ -104,12 +104,14 @@ func classifyErr(kind string, err error) string {
 	switch {
 	case strings.Contains(t, "stateless mode"):
 		return "err:stateless"
-	case strings.Contains(t, "no GET SSE connection"):
-		return "err:noStream"
-	case strings.Contains(t, "session not initialized"):
-		return "err:notInitialized"
 	case strings.Contains(t, "failed to broadcast notification"), strings.Contains(t, "failed to send filtered notification"):
 		return "err:allFailed"
+	case strings.Contains(t, "no GET SSE connection"):
+		return "err:noStream"
+	case strings.Contains(t, "failed to send notification via SSE"), strings.Contains(t, "failed to send request via SSE"):
+		return "err:writeFailed"
+	case strings.Contains(t, "session not initialized"):
+		return "err:notInitialized"
 	case strings.Contains(t, "session not found"):
 		if kind == "streamable-send" {
 			return "err:noStream" // SendNotification on the Streamable server: no stream registered under that id
@@ -370,6 +372,12 @@ func (g *gen) step() {
 		s := g.anySession(true)
 		g.do(op{T: "closeStream", S: ip(s)})
 		g.stream[s] = false
+	case g.be.modelSrv() == "streamable" && r >= 29 && r < 33:
+		// a GET whose stream is registered but fails every write
+		s := g.anySession(false)
+		if res := g.do(op{T: "breakStream", S: ip(s)}); res == "ok" {
+			g.stream[s] = false
+		}
 	case r < 45:
 		g.do(op{T: "send", S: ip(g.anySession(false)), M: ip(g.tag())})
 	case g.hasBcast && r < 55:
@@ -635,6 +643,9 @@ func run(c *hk.Ctx) {
 	fixedTwoSessions(c, mk["streamable"](0), 0)
 	fixedTwoSessions(c, mk["legacy"](0), 0)
 	fixedBroadcast(c, mk["streamable"](0))
+	for i := 0; i < 8; i++ {
+		fixedBrokenStreams(c, mk["streamable"](0))
+	}
 	fixedMillion(c, mk["streamable"](999999), 999999)
 	fixedMillion(c, mk["legacy"](999999), 999999)
 	fixedMillion(c, mk["stdio"](999999), 999999)
@@ -751,6 +762,42 @@ func fixedBroadcast(c *hk.Ctx, be backend) {
 	g.do(op{T: "send", S: ip(1), M: ip(g.tag())})
 	g.twoStream, g.partial = true, true
 	emit(c, g, 0, "fixed-broadcast")
+}
+
+// fixedBrokenStreams: six sessions — three healthy streams, two streams whose writes fail, one without a stream: every
+// broadcast / filtered send must reach exactly the healthy selected ones and count them (the server walks its sessions in
+// map order, which differs from run to run).
+func fixedBrokenStreams(c *hk.Ctx, be backend) {
+	defer be.close()
+	g := newGen(c, be)
+	for i := 0; i < 6; i++ {
+		g.newSession()
+	}
+	for _, s := range []int{0, 2, 4} {
+		g.do(op{T: "openStream", S: ip(s)})
+		g.stream[s] = true
+	}
+	g.do(op{T: "breakStream", S: ip(1)})
+	g.do(op{T: "breakStream", S: ip(3)})
+	g.do(op{T: "broadcast", M: ip(g.tag())})
+	g.do(op{T: "filtered", Sel: []int{0, 1, 2, 5}, M: ip(g.tag())})
+	g.do(op{T: "filtered", Sel: []int{1, 3}, M: ip(g.tag())})
+	g.do(op{T: "send", S: ip(1), M: ip(g.tag())})
+	g.do(op{T: "send", S: ip(2), M: ip(g.tag())})
+	g.request(3) // the request frame cannot be written
+	g.do(op{T: "broadcast", M: ip(g.tag())})
+	g.do(op{T: "openStream", S: ip(1)}) // the peer of session 1 reconnects with a healthy stream
+	g.stream[1] = true
+	g.do(op{T: "broadcast", M: ip(g.tag())})
+	g.do(op{T: "closeStream", S: ip(3)})
+	g.do(op{T: "breakStream", S: ip(4)}) // a healthy stream is replaced by a broken one
+	g.stream[4] = false
+	g.do(op{T: "broadcast", M: ip(g.tag())})
+	g.do(op{T: "delSession", S: ip(4)})
+	g.alive[4] = false
+	g.do(op{T: "broadcast", M: ip(g.tag())})
+	g.twoStream, g.partial = true, true
+	emit(c, g, 0, "fixed-broken-streams")
 }
 
 func fixedMillion(c *hk.Ctx, be backend, start int64) {
